@@ -113,6 +113,20 @@ def run(tier, seed):
         i = len(jobs); sp = os.path.join(wd, "t%03d.txt" % i)
         open(sp, "w").write("\n".join(L) + "\n")
         jobs.append((i, sp, os.path.join(wd, "t%03d.nd" % i), nres + 1))
+    # the callback supplies keys the library lacks (it loads them from inside the callback); the rotation thread adds a new key before
+    # it deletes the oldest, so that the list is never empty (key ids stay below 13: the harness reads them back from one byte)
+    for j in range(2 if tier == "quick" else 12):
+        nres = rnd.choice([2, 3])
+        L = ["0 ticketcb %d supply" % rnd.choice([200, 400])]
+        for t in range(nres):
+            L.append("%d conn TS%d T12 0xc02f full" % (t, t))
+            L += ["%d conn TS%d T12 0xc02f ticket" % (t, t)] * 40
+        L.append("%d keyadd 1" % nres)
+        for i in range(40):
+            L += ["%d keydel %d" % (nres, i % 13), "%d nap %d" % (nres, rnd.choice([1000, 3000])), "%d keyadd %d" % (nres, (i + 2) % 13), "%d nap 2000" % nres]
+        i = len(jobs); sp = os.path.join(wd, "t%03d.txt" % i)
+        open(sp, "w").write("\n".join(L) + "\n")
+        jobs.append((i, sp, os.path.join(wd, "t%03d.nd" % i), nres + 1))
     # resumptions the server has to decline (extended master secret offered for a session made without it) next to ordinary
     # session-id traffic of other threads: the declining path takes and releases the session table lock like every other
     for j in range(2 if tier == "quick" else 12):
